@@ -107,8 +107,14 @@ def run_case(case) -> List[Tuple[str, str]]:
                 turn = c.turn_id
                 _computes.append((agent, bool(getattr(c, "_dry_run_until_t4", False)), sum(_store.applied.values())))
                 killed = not bool((c.cfg.get("t4") or {}).get("enabled", True))
+                # one running dict that the turn refills and logs at every stage to a stream that CI normalisation leaves
+                # alone: each line must carry the content at the time of its append, also when the driver buffers the lines
+                running: Dict[str, Any] = {}
                 for s in (("t1", "t2") if killed else ("t1", "t2", "t4")):
                     append_jsonl(s + ".jsonl", _pad_payload(s, agent, turn, _sizes[s]))
+                    running.clear()
+                    running.update({"turn": turn, "agent": agent, "stage": s})
+                    append_jsonl("t3_plan.jsonl", running)
                 deltas = [ProposedDelta("node", f"n:{agent}", "weight", 0.125, op_idx=None, idx=0)]
                 utter = f"utter-{agent}-{text}"
                 if killed:
